@@ -32,5 +32,32 @@ PROPS["C01"] = {
     "outside": "",
 }
 
+PROPS["C07"] = {
+    "programs": {
+        "quick": [P("test", "VerifFileStructure", w=2, k=1, maxn=9), P("test", "VerifFileStructure", w=3, k=1, maxn=13)],
+    },
+    "bounds": {"quick": "w=2 n<=9, w=3 n<=13, size-1 chunker"},
+    "assumptions": [],
+    "outside": "",
+}
+
+PROPS["C04"] = {
+    "programs": {
+        "quick": [P("test", "VerifReadSeekHistory", must_reach=("end", "seek-negative", "read-at-or-past-end"), w=2, k=2, maxlen=5, steps=2)],
+    },
+    "bounds": {"quick": "files of 0..5 bytes at w=2,size-2 (raw single block, root+2, root+3->2-level), histories of 2 ops, offsets |off|<=2^40, buffers 1..3"},
+    "assumptions": [],
+    "outside": "",
+}
+
+PROPS["C11"] = {
+    "programs": {
+        "quick": [P("test", "VerifFileStructure", w=2, k=2, maxn=5), P("test", "VerifFileStructure", w=3, k=1, maxn=10)],
+    },
+    "bounds": {"quick": "files: w=2 size-2 n<=5 (short last chunk), w=3 n<=10"},
+    "assumptions": [],
+    "outside": "",
+}
+
 NOT_APPLICABLE = {}
 NOTES = "All checks are bounded: every result reads 'holds for all values within the bounds recorded in the evidence file; nothing is claimed outside them'. exit 2 = inconclusive (never a pass)."
